@@ -67,6 +67,9 @@ def retort_reachable(func: Any) -> dict:
         if depth > 6 or id(f) in seen:
             return
         seen.add(id(f))
+        code = getattr(f, "__code__", None)
+        if code is not None and "adaptix" not in code.co_filename:
+            return          # user supplied code (saturators, extractors, factories of the harness): its state is not the retort's
         for cell in getattr(f, "__closure__", None) or ():
             try:
                 v = cell.cell_contents
